@@ -643,9 +643,8 @@ namespace awkward {
     if (length <= 10) {
       for (int64_t i = 0;  i < length;  i++) {
         T* ptr2 = reinterpret_cast<T*>(
-            reinterpret_cast<ssize_t>(ptr) + stride*((ssize_t)i * 2));
-        T* ptr3 = reinterpret_cast<T*>(
-            reinterpret_cast<ssize_t>(ptr) + stride*((ssize_t)i * 2 + 1));
+            reinterpret_cast<ssize_t>(ptr) + stride*((ssize_t)i));
+        T* ptr3 = ptr2 + 1;
         if (i != 0) {
           out << " ";
         }
@@ -658,9 +657,8 @@ namespace awkward {
     else {
       for (int64_t i = 0;  i < 5;  i++) {
         T* ptr2 = reinterpret_cast<T*>(
-            reinterpret_cast<ssize_t>(ptr) + stride*((ssize_t)i) * 2);
-        T* ptr3 = reinterpret_cast<T*>(
-            reinterpret_cast<ssize_t>(ptr) + stride*((ssize_t)i * 2 + 1));
+            reinterpret_cast<ssize_t>(ptr) + stride*((ssize_t)i));
+        T* ptr3 = ptr2 + 1;
         if (i != 0) {
           out << " ";
         }
@@ -672,9 +670,8 @@ namespace awkward {
       out << " ... ";
       for (int64_t i = length - 5;  i < length;  i++) {
         T* ptr2 = reinterpret_cast<T*>(
-            reinterpret_cast<ssize_t>(ptr) + stride*((ssize_t)i) * 2);
-        T* ptr3 = reinterpret_cast<T*>(
-            reinterpret_cast<ssize_t>(ptr) + stride*((ssize_t)i * 2 + 1));
+            reinterpret_cast<ssize_t>(ptr) + stride*((ssize_t)i));
+        T* ptr3 = ptr2 + 1;
         if (i != length - 5) {
           out << " ";
         }
@@ -912,7 +909,7 @@ namespace awkward {
       tostring_as_complex<float>(ptr_lib(),
                                  out,
                                  reinterpret_cast<float*>(data()),
-                                 strides_[0] >> 1,
+                                 strides_[0],
                                  length(),
                                  dtype_);
     }
@@ -920,7 +917,7 @@ namespace awkward {
       tostring_as_complex<double>(ptr_lib(),
                                   out,
                                   reinterpret_cast<double*>(data()),
-                                  strides_[0] >> 1,
+                                  strides_[0],
                                   length(),
                                   dtype_);
     }
